@@ -40,7 +40,14 @@ RowFails(r) ==
                         /\ \A a, b \in 1..Len(steps) : a # b => EdgeSet(steps[a]) \cap EdgeSet(steps[b]) = {}
                         /\ \A j \in 1..Len(steps) : Len(steps[j]) = Cardinality(EdgeSet(steps[j])), "C16.once")
                  : k \in 1..Len(r.sequences)}
-          \cup W(r.count = Len(r.sequences), "C16.count"))
+          \cup W(r.count = Len(r.sequences), "C16.count")
+          \* per step, the sequence reports exactly the qubits that require parking for that step's gates; the layout object it
+          \* exports holds the same steps (gates and parks), one layer per step
+          \cup UNION {LET steps == r.sequences[k]  pk == r.parks[k]  ex == r.exported[k] IN
+                      W(Len(pk) = Len(steps) /\ \A j \in 1..Len(steps) : (Disjoint(EdgeSet(steps[j])) => SeqSet(pk[j]) = ParkSet(EdgeSet(steps[j]))), "C16.park.steps")
+                      \cup W(Len(ex) = Len(steps) /\ \A j \in 1..Len(steps) : EdgeSet(ex[j].gates) = EdgeSet(steps[j])
+                                                                              /\ (Disjoint(EdgeSet(steps[j])) => SeqSet(ex[j].parks) = ParkSet(EdgeSet(steps[j]))), "C16.once.exported")
+                      : k \in 1..Len(r.parks)})
     [] r.t = "layout" ->
          \* a shipped or derived layout: layers + the ancilla-data pairs it must exercise exactly once
          (UNION {LayerFails(r.layers[k], {}) : k \in 1..Len(r.layers)}
